@@ -57,9 +57,15 @@ var concSources = []string{
 	`find all 'a' # 'b'`,
 	`find all 'a' --( never closed`,
 	`find all 'a' -- a comment\n  'b' --( block )-- or 'c'  -- tail`,
+	// a regex literal without any group; back-references in a second literal; lists
+	// of three and more alternatives that overlap (the order decides)
+	`find all @/ab+c/`,
+	`find all @/(a)(b)/ @/(c)\1/`,
+	`find all in 'a', 'ab', 'abc' in 'd', 'cd', 'bcd'`,
+	`find all in 'ab', 'a', 'b', 'abb' in 'c', 'bc', 'b'`,
 }
 
-var concTexts = []string{"abba abab c", "aabbc ac bcb", "a1b22 xyzzyx qq", "", "ababababababababababab aaaaaaaaaaaaaaaaaaaaaaaaaaaaaa 01234567890123456789"}
+var concTexts = []string{"abba abab c abcd abbc", "aabbc ac bcb abcc", "a1b22 xyzzyx qq", "", "ababababababababababab aaaaaaaaaaaaaaaaaaaaaaaaaaaaaa 01234567890123456789"}
 
 type concResult struct {
 	err  string
